@@ -89,6 +89,13 @@ impl<'a, N: Normalizer> XmlSerializer<'a, N> {
             StartTagOpen(element) => {
                 self.fullname_serializer
                     .push(self.xot.namespace_declarations(node));
+                // an element in no namespace cannot be written unprefixed where a
+                // default namespace is in scope: it needs an xmlns="" declaration
+                if self.xot.namespace_for_name(element.name_id) == self.xot.no_namespace()
+                    && self.fullname_serializer.has_default_namespace()
+                {
+                    return Err(Error::MissingPrefix("".to_string()));
+                }
                 OutputToken {
                     space: false,
                     text: format!(
